@@ -8,8 +8,7 @@
   `coe_total` (every entry point returns a value or an error, never panics) holds unconditionally since the repairs
   fix-c16-emergency, fix-c16-segment-length, fix-c16-sdo-info-length; the former witnesses of the four panic sites are
   kept as `coe_total_*_fixed` theorems (they are errors now) and in the harness corpus.
-  The loops are still only bounded by the device's good will: `info_terminates_counterexample` /
-  `segments_terminate_counterexample` (c16/sdo-info-endless, c16/segment-endless).
+  Since fix-c16-endless-loops both client loops are bounded for any device: `info_terminates`, `segments_terminate`.
 -/
 import EcModel.Lemmas.CoeEndless
 import EcModel.Lemmas.CoeInside
@@ -155,41 +154,42 @@ theorem info_buffer_bounded_step (cfg : Cfg) (p : Pdu) (consumed : Bool) (buf bu
 /-! ### info_terminates -/
 
 /-- **info_terminates (finite scripts).** Every iteration of the SDO-info loop takes one message out of the device:
-    mailbox reads + messages left = what was queued + what the request produced. So for any finite amount of replies
-    the loop ends (with the value, an error, or the response timeout once the device is silent). -/
-theorem info_terminates {σ : Type} (w : World σ) (cfg : Cfg) (req : List Nat) (s : St σ) (hm : cfg.hasMailbox = true) :
+    mailbox reads + messages left = what was queued + what the request produced. -/
+theorem info_terminates_finite {σ : Type} (w : World σ) (cfg : Cfg) (req : List Nat) (s : St σ)
+    (hm : cfg.hasMailbox = true) :
     (sendSdoInfoService w cfg req s).2.reads + (sendSdoInfoService w cfg req s).2.outq.length =
       s.reads + s.outq.length + (w.respond s.dev (image cfg.wmbx req)).2.length :=
   sendSdoInfoService_reads w cfg req s hm
 
-/-- **info_terminates (partial, endless streams).** If every message the device sends makes progress (it is not
-    ignored, and an accepted non-final fragment carries at least one byte), the loop performs at most 0x1fffe + 1
-    mailbox reads however long the stream is. -/
-theorem info_terminates_partial (cfg : Cfg) (q : List (List Nat)) (consumed : Bool) (reads : Nat)
-    (hq : ∀ m ∈ q, Progress cfg m) : (infoLoop cfg q consumed [] reads).2.2 ≤ reads + 0x1fffe + 1 :=
-  infoLoop_reads_bounded cfg q consumed [] reads hq (Nat.zero_le _)
+/-- **info_terminates.** (True since fix-c16-endless-loops.) For ANY stream of replies, however long — endless
+    "more fragments", fragments without data, foreign messages — the loop performs at most 0x1fffe + 1 mailbox reads:
+    every fragment that announces another one adds at least one byte to the 0x1fffe-byte buffer and anything else ends
+    the request with a value or an error. -/
+theorem info_terminates (cfg : Cfg) (q : List (List Nat)) (consumed : Bool) (reads : Nat) :
+    (infoLoop cfg q consumed [] reads).2.2 ≤ reads + 0x1fffe + 1 :=
+  infoLoop_reads_bounded cfg q consumed [] reads (Nat.zero_le _)
 
-/-- The full statement fails: zero-length "more follows" fragments are accepted for ever. For every n the client
-    performs n mailbox reads on n such fragments and only stops because the (finite) script ends. -/
-theorem info_terminates_counterexample (n : Nat) :
-    infoLoop cfg16 (List.replicate n zeroFrag) false [] 0 = (.err .timeout, [], n) := by
-  have := infoLoop_zeroFrags n false [] 0 (Nat.zero_le _)
+/-- The former witness of c16/sdo-info-endless (n + 1 zero-length "more follows" fragments): `Error::Internal` after one
+    mailbox read. -/
+theorem info_terminates_endless_fixed (n : Nat) :
+    infoLoop cfg16 (List.replicate (n + 1) zeroFrag) false [] 0 = (.err .internal, List.replicate n zeroFrag, 1) := by
+  have := infoLoop_zeroFrags_fixed n false [] 0 (Nat.zero_le _)
   simpa using this
 
-/-- **segments_terminate (partial).** If every upload segment response the device sends carries at least one byte
-    whenever it is accepted, a segmented `sdo_read` into a destination of `buf.length` bytes sends at most
-    `buf.length - total + 1` segment requests. -/
-theorem segments_terminate_partial {σ : Type} (w : World σ) (cfg : Cfg) (P : DevInv σ)
-    (hP : ∀ m, P.msg m → SegProgress cfg m) (hw : WGood P w) (fuel : Nat) (toggle : Bool) (buf : List Nat) (total : Nat)
-    (s : St σ) (hs : QGood P s) (ht : total ≤ buf.length) :
+/-- **segments_terminate.** (True since fix-c16-endless-loops.) For ANY device and any fuel: a segmented `sdo_read`
+    into a destination of `buf.length` bytes sends at most `buf.length - total + 1` segment requests, because a segment
+    that is not the last one must carry at least one byte. (So `outOfFuel` cannot occur with fuel > buf.length + 1.) -/
+theorem segments_terminate {σ : Type} (w : World σ) (cfg : Cfg) (fuel : Nat) (toggle : Bool) (buf : List Nat)
+    (total : Nat) (s : St σ) (ht : total ≤ buf.length) :
     (segLoop w cfg fuel toggle buf total s).2.reqs.length ≤ s.reqs.length + (buf.length - total) + 1 :=
-  segLoop_requests_bounded w cfg P hP hw fuel toggle buf total s hs ht
+  segLoop_requests_bounded w cfg fuel toggle buf total s ht
 
-/-- The full statement fails: zero-length segments are accepted for ever (n requests and reads for n segments). -/
-theorem segments_terminate_counterexample (n : Nat) :
-    (segLoop scriptWorld cfg32 (n + 1) false (zeros 4) 0 (St.init 1 (List.replicate n [zeroSeg]) [])).1 = .err .timeout ∧
-    (segLoop scriptWorld cfg32 (n + 1) false (zeros 4) 0 (St.init 1 (List.replicate n [zeroSeg]) [])).2.reads = n := by
-  have := segLoop_zeroSegs n (n + 1) false (zeros 4) 0 1 [] 0 (Nat.lt_succ_self n) (Nat.zero_le _)
+/-- The former witness of c16/segment-endless (n + 1 zero-length segments): `Error::Internal` after one request. -/
+theorem segments_terminate_endless_fixed (n : Nat) :
+    (segLoop scriptWorld cfg32 (n + 1) false (zeros 4) 0 (St.init 1 (List.replicate (n + 1) [zeroSeg]) [])).1 =
+      .err .internal ∧
+    (segLoop scriptWorld cfg32 (n + 1) false (zeros 4) 0 (St.init 1 (List.replicate (n + 1) [zeroSeg]) [])).2.reads = 1 := by
+  have := segLoop_zeroSegs_fixed n n false (zeros 4) 0 1 [] 0 (Nat.zero_le _)
   simpa [St.init] using this
 
 /-! ### Non-vacuity -/
@@ -202,7 +202,7 @@ example : (sdoRead scriptWorld cfg32 4 4 0x2000 (.index 0)
 /-- A well-formed OD list response is assembled. -/
 example : (sdoInfoList scriptWorld cfg32 1 (St.init 1 [[infoLen 12]] [])).1 = .ok (some [0x1000, 0x1018]) := by decide
 
-/-- A data-carrying fragment makes progress (hypothesis of `info_terminates_partial`) — checked on two buffers. -/
+/-- A data-carrying fragment is appended. -/
 example : (infoStep cfg32 (mkPdu cfg32 (image 32 (infoLen 12))) false []) = .ok (.frag [0x00, 0x10, 0x18, 0x10] false) := by
   decide
 
